@@ -166,7 +166,7 @@ def parse_operand(s):
         return ("place", p)
     if s.startswith("const "):
         return ("const", s[6:].strip())
-    if re.match(r"^[A-Za-z_][\w:<> ]*::\w+(::<[^()]*>)?$", s) or re.match(r"^[A-Za-z_]\w*::<[^()]*>$", s):
+    if re.match(r"^[A-Za-z_][\w:<> ',]*::\w+(::<[^()]*>)?$", s) or re.match(r"^[A-Za-z_]\w*::<[^()]*>$", s):
         # a function item used as a value (e.g. `char::is_alphanumeric` passed as a pattern)
         return ("const", s)
     raise Unsupported("operand %r" % s)
